@@ -306,9 +306,25 @@ func classifyEnum(c *Ctx, pk, typ string) *enumShape {
 		}
 	}
 	if es.bitmask {
-		for _, ci := range callsNamed(u, "strings.Split") {
+		for _, ci := range callsNamed(u, "strings.Split", "strings.Cut", "strings.SplitN") {
 			if cs, ok := ci.Common().Args[1].(*ssa.Const); ok && cs.Value != nil && cs.Value.Kind() == constant.String {
 				es.usep = constant.StringVal(cs.Value)
+			}
+			// strings.Cut yields one label per call: the loop has to go by its `found` result, so that the label after
+			// the last separator — and the empty text — are looked up (and refused) like any other. A loop that runs
+			// `while the rest is non-empty` accepts "" and a dangling separator as no label at all.
+			if calleeName(ci.Common()) == "strings.Cut" {
+				foundUsed := false
+				if v := ci.Value(); v != nil && v.Referrers() != nil {
+					for _, rf := range *v.Referrers() {
+						if e, isE := rf.(*ssa.Extract); isE && e.Index == 2 && e.Referrers() != nil && len(*e.Referrers()) > 0 {
+							foundUsed = true
+						}
+					}
+				}
+				if !foundUsed {
+					es.probs = append(es.probs, "the text is split with strings.Cut but the loop does not go by its `found` result: the empty text and a text ending in the separator are accepted instead of being refused")
+				}
 			}
 		}
 		if es.usep != es.sep {
